@@ -1041,7 +1041,11 @@ def const_stage(ctx):
 
 def run(ctx):
     from collections import Counter
-    ctx.lean_stage()
+    kit.gen_stage(ctx)
+    ctx.lean_stage(extra_props=("GenRealloc",))
+    ctx.notes.append("model tie #2: the body of `for dim in group_dict:` of create_redist_dict (with rd, grp_info, is_outlier; scores as opaque "
+                     "scalars) regenerated from the source by harness/py2lean.py on this run; PrecondVerif.GenProps.C17.redist_group_bridge "
+                     "(Props/GenRealloc.lean) proves it equal to Realloc.groupRun for every arithmetic, gen_budget_any_arithmetic re-proves the budget on it")
     stats = Counter()
     model_selftest(ctx)
     const_stage(ctx)
